@@ -59,12 +59,65 @@ RArgs(toks, wantValue) ==
 Dropped(o) == IF {"DEPRECATED", "DROP"} \subseteq o.flags
                 THEN [o EXCEPT !.vals = <<>>, !.cmt = Null] ELSE o
 
+RUnspec        == [st |-> "unspec", sec |-> <<>>, rest |-> <<>>]
+
+(* ------------------------------------------------------------------ *)
+(* well-formed undeclared items (C12), skipped when the context was    *)
+(* created with the ignore-unknown flag:                               *)
+(*   u ::= NAME ('='|'+=') (v | '{' [v (',' v)* [',']] '}')            *)
+(*       | NAME '(' [v (',' v)* [',']] ')'                             *)
+(*       | NAME [TITLE] '{' u* '}'                                     *)
+(* Anything else after an undeclared name is outside the property      *)
+(* ("unspec").                                                         *)
+(* ------------------------------------------------------------------ *)
+RECURSIVE RSkipSeq(_, _, _), RSkipBody(_), RSkipItem(_)
+(* v (',' v)* [','] closer *)
+RSkipSeq(toks, closer, wantValue) ==
+  IF toks = <<>> THEN RMore
+  ELSE LET t == Head(toks)
+       IN IF t.k = "eof" THEN RFail
+          ELSE IF t.k = closer THEN ROk(<<>>, Tail(toks))
+          ELSE IF wantValue THEN (IF t.k = "str" THEN RSkipSeq(Tail(toks), closer, FALSE) ELSE RUnspec)
+          ELSE IF t.k = "," THEN RSkipSeq(Tail(toks), closer, TRUE) ELSE RUnspec
+RSkipItem(toks) ==
+  IF toks = <<>> THEN RMore
+  ELSE LET t == Head(toks)
+           r == Tail(toks)
+       IN IF t.k = "eof" THEN RFail
+          ELSE IF t.k \in {"=", "+="} THEN
+                 IF r = <<>> THEN RMore
+                 ELSE IF Head(r).k = "eof" THEN RFail
+                 ELSE IF Head(r).k = "str" THEN ROk(<<>>, Tail(r))
+                 ELSE IF Head(r).k = "{" THEN RSkipSeq(Tail(r), "}", TRUE)
+                 ELSE RUnspec
+          ELSE IF t.k = "(" THEN RSkipSeq(r, ")", TRUE)
+          ELSE IF t.k = "{" THEN RSkipBody(r)
+          ELSE IF t.k = "str" THEN
+                 IF r = <<>> THEN RMore
+                 ELSE IF Head(r).k = "eof" THEN RFail
+                 ELSE IF Head(r).k = "{" THEN RSkipBody(Tail(r)) ELSE RUnspec
+          ELSE RUnspec
+RSkipBody(toks) ==
+  IF toks = <<>> THEN RMore
+  ELSE LET t == Head(toks)
+       IN IF t.k = "eof" THEN RFail
+          ELSE IF t.k = "}" THEN ROk(<<>>, Tail(toks))
+          ELSE IF t.k = "str" THEN
+                 LET r == RSkipItem(Tail(toks))
+                 IN IF r.st # "ok" THEN r ELSE RSkipBody(r.rest)
+          ELSE RUnspec
+
 RECURSIVE RItems(_, _, _, _, _), RItem(_, _, _, _, _)
 
-RItem(sec, kv, name, toks, nocase) ==
-  LET idx == FindOpt(sec.opts, name, nocase)
+RItem(sec, kv, name, toks, rc) ==
+  LET nocase == rc.nocase
+      idx == FindOpt(sec.opts, name, nocase)
   IN IF idx = 0 THEN
-        IF ~kv THEN RFail
+        IF rc.ignore THEN
+           (* the undeclared item is skipped: nothing changes *)
+           LET r == RSkipItem(toks)
+           IN IF r.st # "ok" THEN r ELSE ROk(sec, r.rest)
+        ELSE IF ~kv THEN RFail
         ELSE (* free-form key: created, then assigned like a string scalar *)
              LET key == FreeKey(name)
                  r   == RAssign(key, toks)
@@ -99,7 +152,7 @@ RItem(sec, kv, name, toks, nocase) ==
                                        ELSE 1
                             start == IF multi \/ o.vals = <<>> THEN fresh ELSE o.vals[1]
                         IN IF hit # 0 /\ "NO_TITLE_DUPES" \in o.flags THEN RFail
-                           ELSE LET r == RItems(start, kv \/ "KEYSTRVAL" \in o.flags, body, FALSE, nocase)
+                           ELSE LET r == RItems(start, kv \/ "KEYSTRVAL" \in o.flags, body, FALSE, rc)
                                 IN IF r.st # "ok" THEN r
                                    ELSE LET vals2 == IF ii > Len(o.vals) THEN Append(o.vals, r.sec)
                                                      ELSE [o.vals EXCEPT ![ii] = r.sec]
@@ -107,17 +160,17 @@ RItem(sec, kv, name, toks, nocase) ==
                                                   Dropped([o EXCEPT !.vals = vals2, !.mod = TRUE])],
                                                r.rest)
 
-RItems(sec, kv, toks, top, nocase) ==
+RItems(sec, kv, toks, top, rc) ==
   IF toks = <<>> THEN RMore
   ELSE LET t == Head(toks)
        IN IF t.k = "eof" THEN (IF top THEN ROk(sec, <<>>) ELSE RFail)
           ELSE IF t.k = "}" THEN (IF top THEN RFail ELSE ROk(sec, Tail(toks)))
           ELSE IF t.k # "str" THEN RFail
-          ELSE LET r == RItem(sec, kv, t.v, Tail(toks), nocase)
-               IN IF r.st # "ok" THEN r ELSE RItems(r.sec, kv, r.rest, top, nocase)
+          ELSE LET r == RItem(sec, kv, t.v, Tail(toks), rc)
+               IN IF r.st # "ok" THEN r ELSE RItems(r.sec, kv, r.rest, top, rc)
 
 (* the meaning of a whole text parsed into root *)
-Meaning(root, kvroot, toks, nocase) == RItems(root, kvroot, NoComments(toks), TRUE, nocase)
+Meaning(root, kvroot, toks, rc) == RItems(root, kvroot, NoComments(toks), TRUE, rc)
 
 (* what C01 compares: values, titles, sizes, modified mark (the default     *)
 (* marker and the annotation are not part of the denotation)               *)
